@@ -333,10 +333,14 @@ class PrimitiveEquationsSpecs:
     """Rescales and casts the given non-dimensional value to timedelta64."""
     base_unit = 's'  # return value is rounded down to nearest base_unit
     dt = self.scale.dimensionalize(value, units(base_unit)).m
+    # values within round-off error of a whole number of base units (e.g. the
+    # 26.999999999999996 obtained for 27 seconds) are not rounded down.
+    nearest = np.round(dt)
+    snapped = np.where(np.isclose(dt, nearest, rtol=1e-12, atol=0), nearest, dt)
     if isinstance(dt, np.ndarray):
-      return dt.astype(f'timedelta64[{base_unit}]')
+      return snapped.astype(f'timedelta64[{base_unit}]')
     else:
-      return np.timedelta64(int(dt), base_unit)
+      return np.timedelta64(int(snapped), base_unit)
 
   @classmethod
   def from_si(
